@@ -39,6 +39,45 @@ unique up to that identity.  That uniqueness is NOT proved here (see notes/C17.m
 namespace PikaVerif.Deque
 open PikaVerif
 
+/-! ## Concrete reachable states with a stalled second thread (non-vacuity)
+
+`stalledLog`: thread 1 pushed 1, then ran `push_left(2)` up to its successful anchor CAS and
+stopped: the anchor is `(l=2, r=1, lpush, tag 2)` — **unstable**, node 1's `left` link still
+null — and thread 1 sits at the first link load of its `stabilize_left`.  Thread 0 is idle.
+`stalledLog2`: the same, thread 1 stopped two instructions before its link CAS (`stLink`).
+`stalledLog3`: thread 1 allocated a node for a push and stopped before loading the anchor; the
+deque is empty. -/
+def stalledLog : List Ev :=
+  [.inv 1 true false 1, .alloc 1 1, .ld 1 ⟨0, 0, 0, 0⟩, .cas 1 true, .ret 1 true 0,
+   .inv 1 true false 2, .alloc 1 2, .ld 1 ⟨1, 1, 0, 1⟩, .link 1 2 1, .cas 1 true]
+def stalledLog2 : List Ev :=
+  stalledLog ++ [.rd 1 ⟨1, 2⟩, .chk 1 true, .rd 1 ⟨0, 1⟩, .chk 1 true]
+def stalledLog3 : List Ev := [.inv 1 true false 1, .alloc 1 1]
+
+example : (runLog stepF (init 2) stalledLog).map (fun s => (s.pc 0, s.pc 1, s.anchor, contents s)) =
+    some (.idle, .stRd1 .pushDone false ⟨2, 1, 2, 2⟩, ⟨2, 1, 2, 2⟩, [2, 1]) := by decide
+example : (runLog stepF (init 2) stalledLog2).map (fun s => (s.pc 0, s.pc 1, s.anchor, contents s)) =
+    some (.idle, .stLink .pushDone false ⟨2, 1, 2, 2⟩ ⟨1, 2⟩ ⟨0, 1⟩, ⟨2, 1, 2, 2⟩, [2, 1]) := by decide
+
+/-- the solo `pop_right` of thread 0 from `stalledLog`: 14 events — the bound is attained: load,
+    help thread 1's push (two link loads, two re-checks, link CAS, anchor CAS), reload, re-check,
+    link load, anchor CAS, free, return 1 -/
+def soloPopRight : List Ev :=
+  [.inv 0 false true 0, .ld 0 ⟨2, 1, 2, 2⟩, .rd 0 ⟨1, 2⟩, .chk 0 true, .rd 0 ⟨0, 1⟩, .chk 0 true,
+   .lcas 0 true, .cas 0 true, .ld 0 ⟨2, 1, 0, 3⟩, .chk 0 true, .rd 0 ⟨2, 2⟩, .cas 0 true, .free 0 1,
+   .ret 0 true 1]
+/-- the solo `pop_left` of thread 0 from `stalledLog2` (returns 2) -/
+def soloPopLeft : List Ev :=
+  [.inv 0 false false 0, .ld 0 ⟨2, 1, 2, 2⟩, .rd 0 ⟨1, 2⟩, .chk 0 true, .rd 0 ⟨0, 1⟩, .chk 0 true,
+   .lcas 0 true, .cas 0 true, .ld 0 ⟨2, 1, 0, 3⟩, .chk 0 true, .rd 0 ⟨1, 2⟩, .cas 0 true, .free 0 2,
+   .ret 0 true 2]
+/-- the solo `push_right(3)` of thread 0 from `stalledLog`: 19 events — the bound is attained -/
+def soloPushRight : List Ev :=
+  [.inv 0 true true 3, .alloc 0 3, .ld 0 ⟨2, 1, 2, 2⟩, .rd 0 ⟨1, 2⟩, .chk 0 true, .rd 0 ⟨0, 1⟩,
+   .chk 0 true, .lcas 0 true, .cas 0 true, .ld 0 ⟨2, 1, 0, 3⟩, .link 0 3 1, .cas 0 true,
+   .rd 0 ⟨1, 2⟩, .chk 0 true, .rd 0 ⟨0, 1⟩, .chk 0 true, .lcas 0 true, .cas 0 true, .ret 0 true 0]
+
+
 /-- **Solo pop on a non-empty deque terminates and returns the end element.**  From every
     reachable state, a thread between operations that runs `pop` at end `d` alone finishes within
     14 of its own events (`inv`, at most 12 shared accesses, `ret`), answers `true` with the
@@ -58,6 +97,25 @@ theorem C17_deque_solo_pop_nonempty (n : Nat) (log : List Ev) (s : St)
     solo_pop_op_nonempty (fx := true) s t d x (by rw [hn]; exact ht) hi.glob hidle hc
   exact ⟨mid, v, s', h1, h2, h3, h4, h5, h6, h7, h8⟩
 
+/-- non-vacuity: the explicit 14-event solo `pop_right` from the state with the unstable anchor
+    (thread 1 untouched, still in the middle of its push; 1 popped, 2 left) … -/
+example : soloPopRight.length = 14 ∧ (∀ e ∈ soloPopRight, Ev.tid e = 0) ∧
+    (runLog stepF (init 2) (stalledLog ++ soloPopRight)).map
+      (fun s => (s.pc 0, s.pc 1, s.anchor, contents s, s.popped)) =
+    some (.idle, .stRd1 .pushDone false ⟨2, 1, 2, 2⟩, ⟨2, 2, 0, 4⟩, [2], [1]) := by decide
+example : (runLog stepF (init 2) (stalledLog2 ++ soloPopLeft)).map
+      (fun s => (s.pc 0, s.pc 1, s.anchor, contents s, s.popped)) =
+    some (.idle, .stLink .pushDone false ⟨2, 1, 2, 2⟩ ⟨1, 2⟩ ⟨0, 1⟩, ⟨1, 1, 0, 4⟩, [1], [2]) := by decide
+/-- … and the theorem applies to that state: its hypotheses are satisfiable there -/
+example (s : St) (h : runLog stepF (init 2) stalledLog = some s) :
+    ∃ (mid : List Ev) (v : Nat) (s' : St), mid.length ≤ 12 ∧ (∀ e ∈ mid, Ev.tid e = 0) ∧
+      runLog stepF s (.inv 0 false true 0 :: mid ++ [.ret 0 true v]) = some s' ∧
+      s'.pc 0 = .idle ∧ (∀ u, u ≠ 0 → s'.pc u = s.pc u) ∧
+      contents s = (if true then contents s' ++ [v] else v :: contents s') ∧
+      s'.popped = v :: s.popped ∧ s'.pushed = s.pushed := by
+  have hm := idle_of_map h (c := [2, 1]) (by decide)
+  exact C17_deque_solo_pop_nonempty 2 stalledLog s h 0 (by decide) hm.1 true 0 (by rw [hm.2]; simp)
+
 /-- **Solo pop on an empty deque returns false** after exactly three events (`inv`, the anchor
     load, `ret`), changing nothing. -/
 theorem C17_deque_solo_pop_empty (n : Nat) (log : List Ev) (s : St)
@@ -72,6 +130,17 @@ theorem C17_deque_solo_pop_empty (n : Nat) (log : List Ev) (s : St)
   obtain ⟨s', h1, h2, _, h3, h4, h5, h6⟩ :=
     solo_pop_op_empty (fx := true) s t d x (by rw [hn]; exact ht) hi.glob hidle hc
   exact ⟨s', h1, h2, h3, h4, h5, h6⟩
+
+/-- non-vacuity: empty deque, thread 1 stalled holding a freshly allocated, unpublished node -/
+example : (runLog stepF (init 2) (stalledLog3 ++ [.inv 0 false true 0, .ld 0 ⟨0, 0, 0, 0⟩, .ret 0 false 0])).map
+      (fun s => (s.pc 0, s.pc 1, contents s, s.popped)) =
+    some (.idle, .pushLd false 1, [], []) := by decide
+example (s : St) (h : runLog stepF (init 2) stalledLog3 = some s) :
+    ∃ s' : St, runLog stepF s [.inv 0 false true 0, .ld 0 s.anchor, .ret 0 false 0] = some s' ∧
+      s'.pc 0 = .idle ∧ (∀ u, u ≠ 0 → s'.pc u = s.pc u) ∧
+      contents s' = [] ∧ s'.popped = s.popped ∧ s'.pushed = s.pushed := by
+  have hm := idle_of_map h (c := []) (by decide)
+  exact C17_deque_solo_pop_empty 2 stalledLog3 s h 0 (by decide) hm.1 true 0 hm.2
 
 /-- **Solo push terminates and succeeds.**  From every reachable state, a thread between
     operations that runs `push(v)` at end `d` alone finishes within 19 of its own events (`inv`,
@@ -90,6 +159,21 @@ theorem C17_deque_solo_push (n : Nat) (log : List Ev) (s : St)
   obtain ⟨mid, s', h1, h2, h3, h4, _, h5, h6, h7, h8⟩ :=
     solo_push_op (fx := true) s t d v (by rw [hn]; exact ht) hi.glob (finUsed_of_accepted h) hidle
   exact ⟨mid, s', h1, h2, h3, h4, h5, h6, h7, h8⟩
+
+/-- non-vacuity: the explicit 19-event solo `push_right(3)` from the state with the unstable
+    anchor: thread 0 first completes thread 1's push, then pushes and stabilises its own -/
+example : soloPushRight.length = 19 ∧ (∀ e ∈ soloPushRight, Ev.tid e = 0) ∧
+    (runLog stepF (init 2) (stalledLog ++ soloPushRight)).map
+      (fun s => (s.pc 0, s.pc 1, s.anchor, contents s, s.pushed)) =
+    some (.idle, .stRd1 .pushDone false ⟨2, 1, 2, 2⟩, ⟨2, 3, 0, 5⟩, [2, 1, 3], [3, 2, 1]) := by decide
+example (s : St) (h : runLog stepF (init 2) stalledLog = some s) :
+    ∃ (mid : List Ev) (s' : St), mid.length ≤ 17 ∧ (∀ e ∈ mid, Ev.tid e = 0) ∧
+      runLog stepF s (.inv 0 true true 3 :: mid ++ [.ret 0 true 0]) = some s' ∧
+      s'.pc 0 = .idle ∧ (∀ u, u ≠ 0 → s'.pc u = s.pc u) ∧
+      contents s' = (if true then contents s ++ [3] else 3 :: contents s) ∧
+      s'.pushed = 3 :: s.pushed ∧ s'.popped = s.popped := by
+  have hm := idle_of_map h (c := [2, 1]) (by decide)
+  exact C17_deque_solo_push 2 stalledLog s h 0 (by decide) hm.1 true 3
 
 /-- **Obstruction freedom.**  From every reachable state, whatever the other threads were doing
     when they stopped, every operation (`push = true/false`, either end) started by a thread that
@@ -111,6 +195,14 @@ theorem C17_deque_obstruction_free (n : Nat) (log : List Ev) (s : St)
   · obtain ⟨mid, s', h1, h2, h3, h4, h5, _⟩ := C17_deque_solo_push n log s h t ht hidle d v
     exact ⟨mid, true, 0, s', h1, h2, h3, h4, h5, by simp⟩
 
+/-- non-vacuity (obstruction freedom, from the half-done stabilisation of `stalledLog2`) -/
+example (s : St) (h : runLog stepF (init 2) stalledLog2 = some s) (push d : Bool) (v : Nat) :
+    ∃ (mid : List Ev) (ok : Bool) (r : Nat) (s' : St), mid.length ≤ 17 ∧ (∀ e ∈ mid, Ev.tid e = 0) ∧
+      runLog stepF s (.inv 0 push d v :: mid ++ [.ret 0 ok r]) = some s' ∧ s'.pc 0 = .idle ∧
+      (∀ u, u ≠ 0 → s'.pc u = s.pc u) ∧ (ok = false ↔ (push = false ∧ contents s = [])) := by
+  have hm := idle_of_map h (c := [2, 1]) (by decide)
+  exact C17_deque_obstruction_free 2 stalledLog2 s h 0 (by decide) hm.1 push d v
+
 /-- **Back-end adapters, solo `pop(val, steal)`** (`lockfree_lifo_backend`,
     `lockfree_abp_fifo_backend`, `lockfree_abp_lifo_backend`; `steal = true` is the stealing
     variant): alone, the call returns within 14 events; on a non-empty deque it returns the element
@@ -125,6 +217,18 @@ theorem C17_backend_solo_pop (b : Backend) (steal : Bool) (n : Nat) (log : List 
       s'.popped = v :: s.popped ∧ s'.pushed = s.pushed :=
   C17_deque_solo_pop_nonempty n log s h t ht hidle (b.popEnd steal) x hne
 
+/-- non-vacuity: a steal from the abp-lifo back-end (`pop(v, steal = true)` = `pop_right`) while
+    the owner is stalled inside its push -/
+example (s : St) (h : runLog stepF (init 2) stalledLog = some s) :
+    Backend.abpLifo.popEnd true = true ∧
+    ∃ (mid : List Ev) (v : Nat) (s' : St), mid.length ≤ 12 ∧ (∀ e ∈ mid, Ev.tid e = 0) ∧
+      runLog stepF s (.inv 0 false (Backend.abpLifo.popEnd true) 0 :: mid ++ [.ret 0 true v]) = some s' ∧
+      s'.pc 0 = .idle ∧ (∀ u, u ≠ 0 → s'.pc u = s.pc u) ∧
+      contents s = (if Backend.abpLifo.popEnd true then contents s' ++ [v] else v :: contents s') ∧
+      s'.popped = v :: s.popped ∧ s'.pushed = s.pushed := by
+  have hm := idle_of_map h (c := [2, 1]) (by decide)
+  exact ⟨rfl, C17_backend_solo_pop .abpLifo true 2 stalledLog s h 0 (by decide) hm.1 0 (by rw [hm.2]; simp)⟩
+
 /-- **Back-end adapters, solo `push(val, other_end)`**: alone, the call returns `true` within 19
     events and the value is at the end the adapter pushes to (`Backend.pushEnd`). -/
 theorem C17_backend_solo_push (b : Backend) (other : Bool) (n : Nat) (log : List Ev) (s : St)
@@ -136,5 +240,14 @@ theorem C17_backend_solo_push (b : Backend) (other : Bool) (n : Nat) (log : List
       contents s' = (if b.pushEnd other then contents s ++ [v] else v :: contents s) ∧
       s'.pushed = v :: s.pushed ∧ s'.popped = s.popped :=
   C17_deque_solo_push n log s h t ht hidle (b.pushEnd other) v
+
+example (s : St) (h : runLog stepF (init 2) stalledLog = some s) (b : Backend) (other : Bool) :
+    ∃ (mid : List Ev) (s' : St), mid.length ≤ 17 ∧ (∀ e ∈ mid, Ev.tid e = 0) ∧
+      runLog stepF s (.inv 0 true (b.pushEnd other) 7 :: mid ++ [.ret 0 true 0]) = some s' ∧
+      s'.pc 0 = .idle ∧ (∀ u, u ≠ 0 → s'.pc u = s.pc u) ∧
+      contents s' = (if b.pushEnd other then contents s ++ [7] else 7 :: contents s) ∧
+      s'.pushed = 7 :: s.pushed ∧ s'.popped = s.popped := by
+  have hm := idle_of_map h (c := [2, 1]) (by decide)
+  exact C17_backend_solo_push b other 2 stalledLog s h 0 (by decide) hm.1 7
 
 end PikaVerif.Deque
